@@ -547,6 +547,81 @@ def refill_histories(ctx):
             lattice.refill_check(ctx, nm, {"route": "refill"}, fn, A, B, fresh_fn=fresh, rtol=1e-13, atol=1e-15)
 
 
+def dtype_forms(ctx):
+    """Whole-number nuclear coordinates and points handed over in integer dtypes, atomic numbers as a list / int32 / float
+    array, the index table as a list or int32 array: the weights are those of the float / int64 copies and of the
+    reference (argument forms; after seeded change C11-I, where an integer-dtype argument was truncated in a work array)."""
+    from grid.becke import BeckeWeights
+    from grid.hirshfeld import HirshfeldWeights
+
+    ci = np.array([[0, 0, 0], [0, 0, 2], [2, 1, 0], [-1, 2, 1]])
+    pi = np.array(list(itertools.product((-2, 0, 1, 3), (-1, 1, 2), (-3, 1)))) 
+    pi = pi[[not np.any(np.all(p == ci, axis=1)) for p in pi]]
+    nums = np.array([8, 1, 6, 7])
+    idx = np.linspace(0, len(pi), 5).astype(int)
+    owner = np.zeros(len(pi), dtype=int)
+    for a in range(4):
+        owner[idx[a]:idx[a + 1]] = a
+    table = bragg()
+    with warnings.catch_warnings():
+        warnings.simplefilter("ignore")
+        for order in (1, 3):
+            want = ref_weights(pi.astype(float), ci.astype(float), nums, order, table)[owner, np.arange(len(pi))]
+            forms = {
+                "float-baseline": (pi.astype(float), ci.astype(float), nums, idx),
+                "int-coordinates": (pi.astype(float), ci.astype(np.int64), nums, idx),
+                "int-points": (pi.astype(np.int64), ci.astype(float), nums, idx),
+                "int-both": (pi.astype(np.int64), ci.astype(np.int64), nums, idx),
+                "int32-both": (pi.astype(np.int32), ci.astype(np.int32), nums.astype(np.int32), idx.astype(np.int32)),
+                "lists": (pi.astype(float), ci.astype(float), [int(z) for z in nums], [int(i) for i in idx]),
+                "float-atnums": (pi.astype(float), ci.astype(float), nums.astype(float), idx),
+            }
+            for fname, (p, c, z, ix) in forms.items():
+                for route in ("call", "compute_weights", "generate_weights", "compute_atom_weight"):
+                    ctx.count(section="dtype-forms")
+                    case = {"route": "dtype-forms", "form": fname, "call": route, "order": order}
+                    keep = [np.array(x, copy=True) for x in (p, c)]
+                    try:
+                        bw = BeckeWeights(order=order)
+                        if route == "call":
+                            got = bw(p, c, z, ix)
+                        elif route == "compute_weights":
+                            got = bw.compute_weights(p, c, z, pt_ind=ix)
+                        elif route == "generate_weights":
+                            got = bw.generate_weights(p, c, z, pt_ind=ix)
+                        else:
+                            got = np.concatenate([bw.compute_atom_weight(p[ix[a]:ix[a + 1]], c, z, a) for a in range(4)])
+                        got = np.asarray(got, dtype=float)
+                    except Exception as exc:
+                        if fname in ("lists", "float-atnums"):
+                            ctx.inadm(section="dtype-forms")  # not among the documented forms (np.ndarray of ints): a clean refusal is allowed
+                            continue
+                        ctx.violation(f"dtype-forms:{fname}:raised:{type(exc).__name__}", f"BeckeWeights(order={order}).{route} with {fname}: "
+                                      f"{type(exc).__name__}: {exc}", case)
+                        continue
+                    ctx.nontrivial(("dtype-forms", fname, route, order), section="dtype-forms")
+                    if got.shape != want.shape or _gt(np.max(np.abs(got - want)), 1e-12):
+                        ctx.violation(f"dtype-forms:{fname}:differs-from-reference", f"BeckeWeights(order={order}).{route} with {fname}: weights differ "
+                                      f"from the reference by {np.max(np.abs(got - want)) if got.shape == want.shape else 'shape'}", case)
+                    if not (np.array_equal(keep[0], p) and np.array_equal(keep[1], c)):
+                        ctx.violation(f"dtype-forms:{fname}:arguments-modified", f"{route} with {fname} modified its arguments", case)
+        # Hirshfeld with integer-dtype points and coordinates
+        hw = HirshfeldWeights()
+        base = np.asarray(hw(pi.astype(float), ci.astype(float), nums, idx), dtype=float)
+        for fname, (p, c, z, ix) in (("int-both", (pi.astype(np.int64), ci.astype(np.int64), nums, idx)),
+                                     ("int32-both", (pi.astype(np.int32), ci.astype(np.int32), nums, idx))):
+            ctx.count(section="dtype-forms")
+            case = {"route": "dtype-forms", "form": fname, "call": "hirshfeld"}
+            try:
+                got = np.asarray(HirshfeldWeights()(p, c, z, ix), dtype=float)
+            except Exception as exc:
+                ctx.violation(f"dtype-forms:hirshfeld:{fname}:raised:{type(exc).__name__}", f"HirshfeldWeights with {fname}: {type(exc).__name__}: {exc}", case)
+                continue
+            ctx.nontrivial(("dtype-forms", "hirshfeld", fname), section="dtype-forms")
+            if got.shape != base.shape or _gt(np.max(np.abs(got - base)), 1e-13):
+                ctx.violation(f"dtype-forms:hirshfeld:{fname}:differs-from-float-call", f"HirshfeldWeights with {fname} differs from the float call", case)
+
+
 def run(ctx):
     jobs = [(g, a, o, ctx.seed, f) for g, a, o, f in configs(ctx.thorough)]
     for natoms in (9, 12, 15) + ((18,) if ctx.thorough else ()):
@@ -559,6 +634,7 @@ def run(ctx):
         ctx.merge(res)
     ctx.guarded("hirshfeld", hirshfeld, ctx)
     ctx.guarded("refill", refill_histories, ctx)
+    ctx.guarded("dtype-forms", dtype_forms, ctx)
     from vf import explore
 
     st = explore.explore(ctx, "vf.props.c06:InstanceWorld", 3 if ctx.thorough else 2, params={"order": 3}, twice_every=9, fresh_every=0,
@@ -576,6 +652,8 @@ def replay(ctx, case):
         return explore.replay_history(ctx, case)
     if case.get("route") == "refill":
         return refill_histories(ctx)
+    if case.get("route") == "dtype-forms":
+        return dtype_forms(ctx)
     if case.get("route") == "hirshfeld":
         return hirshfeld(ctx)
     if case.get("route") == "many":
